@@ -32,11 +32,14 @@ struct Params {
     tol_sgn: i64,
     tol_e: u32,
     max_iter: usize,
+    /// exact power-of-two rescaling of alpha that goes with the rescaling of the data
+    /// (see `Data::xexp`, `Data::yexp`); the event records the unscaled alpha = aN / 2^aE
+    aexp: i32,
 }
 
 impl Params {
     fn alpha(&self) -> f64 {
-        self.an as f64 / (1u64 << self.ae) as f64
+        self.an as f64 / (1u64 << self.ae) as f64 * (2.0f64).powi(self.aexp)
     }
     fn l1(&self) -> f64 {
         self.l1n as f64 / (1u64 << self.l1e) as f64
@@ -52,6 +55,15 @@ struct Data {
     x: Vec<Vec<i64>>,
     xden: i64,
     y: Vec<i64>,
+    /// Scale family.  The library is fed X * 2^xexp and y * 2^yexp (exact in binary floating
+    /// point) together with alpha * 2^aexp, chosen so that the stated objective is exactly
+    /// homogeneous: the minimiser of the scaled problem is the minimiser of the integer
+    /// problem times 2^(yexp - xexp).  `run_fit` undoes the scaling exactly, so the events
+    /// (and the specification) only ever see the integer problem.
+    ///   Lasso / l1_ratio = 1 :  yexp = aexp = f            (w' = w 2^f)
+    ///   elastic net, raw     :  xexp = yexp = g, aexp = 2g (w' = w)
+    xexp: i32,
+    yexp: i32,
 }
 
 struct Outcome {
@@ -66,8 +78,12 @@ fn run_fit(d: &Data, pr: &Params) -> Outcome {
 }
 
 fn run_fit_limit(d: &Data, pr: &Params, secs: u64) -> Outcome {
-    let rows: Vec<Vec<f64>> = d.x.iter().map(|r| r.iter().map(|&v| v as f64 / d.xden as f64).collect()).collect();
-    let y: Vec<f64> = d.y.iter().map(|&v| v as f64).collect();
+    let xs = (2.0f64).powi(d.xexp);
+    let ys = (2.0f64).powi(d.yexp);
+    let wback = (2.0f64).powi(d.xexp - d.yexp);
+    let yback = (2.0f64).powi(-d.yexp);
+    let rows: Vec<Vec<f64>> = d.x.iter().map(|r| r.iter().map(|&v| v as f64 * xs / d.xden as f64).collect()).collect();
+    let y: Vec<f64> = d.y.iter().map(|&v| v as f64 * ys).collect();
     let pr = pr.clone();
     let p = if rows.is_empty() { 0 } else { rows[0].len() };
     let r = watchdog(secs, move || {
@@ -90,7 +106,12 @@ fn run_fit_limit(d: &Data, pr: &Params, secs: u64) -> Outcome {
         None => Outcome { status: "timeout", w: vec![], b: 0.0, yhat: vec![] },
         Some(Err(_)) => Outcome { status: "panic", w: vec![], b: 0.0, yhat: vec![] },
         Some(Ok(Err(_))) => Outcome { status: "err", w: vec![], b: 0.0, yhat: vec![] },
-        Some(Ok(Ok((w, b, yhat)))) => Outcome { status: "ok", w, b, yhat },
+        Some(Ok(Ok((w, b, yhat)))) => Outcome {
+            status: "ok",
+            w: w.iter().map(|v| v * wback).collect(),
+            b: b * yback,
+            yhat: yhat.iter().map(|v| v * yback).collect(),
+        },
     }
 }
 
@@ -113,7 +134,7 @@ fn fit_event(run: i64, d: &Data, pr: &Params, o: &Outcome) -> Value {
         }
     }
     json!({"run": run, "ev": "Fit", "est": pr.est, "fam": d.fam, "n": d.x.len(), "p": if d.x.is_empty() {0} else {d.x[0].len()},
-        "X": d.x, "xden": d.xden, "y": d.y, "ylen": d.y.len(),
+        "X": d.x, "xden": d.xden, "y": d.y, "ylen": d.y.len(), "xexp": d.xexp, "yexp": d.yexp, "aexp": pr.aexp,
         "aN": pr.an, "aE": pr.ae, "l1N": pr.l1n, "l1E": pr.l1e, "normalize": pr.normalize,
         "tolSgn": pr.tol_sgn, "tolE": pr.tol_e, "maxIter": pr.max_iter,
         "status": o.status, "fin": fin, "q": q})
@@ -136,7 +157,7 @@ fn pair_event(run: i64, kind: &str, d: &Data, pr: &Params, c: i64, a: &Outcome, 
         }
     }
     json!({"run": run, "ev": "Pair", "kind": kind, "est": pr.est, "fam": d.fam, "n": d.x.len(), "p": d.x[0].len(),
-        "X": d.x, "y": d.y, "shift": c,
+        "X": d.x, "y": d.y, "shift": c, "xexp": d.xexp, "yexp": d.yexp, "aexp": pr.aexp,
         "aN": pr.an, "aE": pr.ae, "l1N": pr.l1n, "l1E": pr.l1e, "normalize": pr.normalize, "tolE": pr.tol_e,
         "statusA": a.status, "statusB": b.status, "fin": fin, "q": q})
 }
@@ -254,14 +275,27 @@ fn gen_data(rng: &mut StdRng, big: bool) -> Data {
         if y.iter().all(|&v| v == y[0]) {
             continue; // constant targets are probed separately (end of the run)
         }
-        return Data { fam: format!("{}/y{}", fam, kind), x, xden: 1, y };
+        return Data { fam: format!("{}/y{}", fam, kind), x, xden: 1, y, xexp: 0, yexp: 0 };
     }
 }
 
 fn gen_params(rng: &mut StdRng, est: &'static str) -> Params {
     let (an, ae) = if rng.gen_bool(0.75) { ALPHAS[rng.gen_range(0..ALPHAS.len())] } else { (rng.gen_range(1..=80), 3) };
     let (l1n, l1e) = if est == "lasso" { (1, 0) } else { L1S[rng.gen_range(0..L1S.len())] };
-    Params { est, an, ae, l1n, l1e, normalize: rng.gen_bool(0.5), tol_sgn: 1, tol_e: TOLS[rng.gen_range(0..3)], max_iter: 1000 }
+    Params { est, an, ae, l1n, l1e, normalize: rng.gen_bool(0.5), tol_sgn: 1, tol_e: TOLS[rng.gen_range(0..3)], max_iter: 1000, aexp: 0 }
+}
+
+/// pick a member of the scale family for this (data, parameters) pair, where one exists
+fn choose_scale(rng: &mut StdRng, d: &mut Data, pr: &mut Params) {
+    let e: i32 = [-20, -10, -10, 0, 10][rng.gen_range(0..5)];
+    if pr.l1n == 1 && pr.l1e == 0 {
+        d.yexp = e;
+        pr.aexp = e;
+    } else if !pr.normalize {
+        d.xexp = e;
+        d.yexp = e;
+        pr.aexp = 2 * e;
+    }
 }
 
 fn gen(path: &str) {
@@ -278,8 +312,11 @@ fn gen(path: &str) {
     // ---- valid settings: a result is promised
     for i in 0..n_valid {
         run += 1;
-        let d = gen_data(&mut rng, thorough && i % 3 == 0);
-        let pr = gen_params(&mut rng, if i % 2 == 0 { "lasso" } else { "enet" });
+        let mut d = gen_data(&mut rng, thorough && i % 3 == 0);
+        let mut pr = gen_params(&mut rng, if i % 2 == 0 { "lasso" } else { "enet" });
+        if i % 5 < 3 {
+            choose_scale(&mut rng, &mut d, &mut pr);
+        }
         let o = run_fit(&d, &pr);
         bump(o.status);
         out.emit(fit_event(run, &d, &pr, &o));
@@ -287,12 +324,15 @@ fn gen(path: &str) {
     // ---- related fits
     for i in 0..n_pairs {
         run += 1;
-        let d = gen_data(&mut rng, false);
+        let mut d = gen_data(&mut rng, false);
         if i % 3 == 2 {
             // elastic net with l1_ratio = 1 versus Lasso
             let mut pe = gen_params(&mut rng, "enet");
             pe.l1n = 1;
             pe.l1e = 0;
+            if i % 2 == 0 {
+                choose_scale(&mut rng, &mut d, &mut pe);
+            }
             let mut pl = pe.clone();
             pl.est = "lasso";
             let a = run_fit(&d, &pe);
@@ -301,7 +341,10 @@ fn gen(path: &str) {
             out.emit(fit_event(run, &d, &pl, &b));
             out.emit(pair_event(run, "l1one", &d, &pe, 0, &a, &b));
         } else {
-            let pr = gen_params(&mut rng, if i % 3 == 0 { "lasso" } else { "enet" });
+            let mut pr = gen_params(&mut rng, if i % 3 == 0 { "lasso" } else { "enet" });
+            if i % 2 == 0 {
+                choose_scale(&mut rng, &mut d, &mut pr);
+            }
             let c: i64 = [1, -7, 100, 1000, -5000, 100000][rng.gen_range(0..6)];
             let mut d2 = d.clone();
             d2.y = d.y.iter().map(|v| v + c).collect();
@@ -370,14 +413,14 @@ fn gen(path: &str) {
     // (kept last and few: an abandoned fit keeps its thread busy until the process exits)
     // four fixed instances first (the minimal reproductions quoted in known_findings/C08.json)
     let fixed: Vec<(Data, Params)> = vec![
-        (Data { fam: "probe-alpha0/fixed".into(), x: vec![vec![-4], vec![-13]], xden: 1, y: vec![100001, 99994] },
-         Params { est: "lasso", an: 0, ae: 0, l1n: 1, l1e: 0, normalize: false, tol_sgn: 1, tol_e: 20, max_iter: 1000 }),
-        (Data { fam: "probe-alpha0/fixed".into(), x: vec![vec![83], vec![79], vec![78]], xden: 1, y: vec![14, -8, -6] },
-         Params { est: "enet", an: 0, ae: 0, l1n: 1, l1e: 1, normalize: false, tol_sgn: 1, tol_e: 14, max_iter: 1000 }),
-        (Data { fam: "probe-consty/fixed".into(), x: vec![vec![-1], vec![-1], vec![1]], xden: 1, y: vec![0, 0, 0] },
-         Params { est: "enet", an: 1, ae: 0, l1n: 1, l1e: 1, normalize: false, tol_sgn: 1, tol_e: 14, max_iter: 1000 }),
-        (Data { fam: "probe-constcol".into(), x: vec![vec![1], vec![1], vec![1]], xden: 10, y: vec![-124, -132, -128] },
-         Params { est: "lasso", an: 2, ae: 3, l1n: 1, l1e: 0, normalize: true, tol_sgn: 1, tol_e: 14, max_iter: 1000 }),
+        (Data { fam: "probe-alpha0/fixed".into(), x: vec![vec![-4], vec![-13]], xden: 1, y: vec![100001, 99994], xexp: 0, yexp: 0 },
+         Params { est: "lasso", an: 0, ae: 0, l1n: 1, l1e: 0, normalize: false, tol_sgn: 1, tol_e: 20, max_iter: 1000, aexp: 0 }),
+        (Data { fam: "probe-alpha0/fixed".into(), x: vec![vec![83], vec![79], vec![78]], xden: 1, y: vec![14, -8, -6], xexp: 0, yexp: 0 },
+         Params { est: "enet", an: 0, ae: 0, l1n: 1, l1e: 1, normalize: false, tol_sgn: 1, tol_e: 14, max_iter: 1000, aexp: 0 }),
+        (Data { fam: "probe-consty/fixed".into(), x: vec![vec![-1], vec![-1], vec![1]], xden: 1, y: vec![0, 0, 0], xexp: 0, yexp: 0 },
+         Params { est: "enet", an: 1, ae: 0, l1n: 1, l1e: 1, normalize: false, tol_sgn: 1, tol_e: 14, max_iter: 1000, aexp: 0 }),
+        (Data { fam: "probe-constcol".into(), x: vec![vec![1], vec![1], vec![1]], xden: 10, y: vec![-124, -132, -128], xexp: 0, yexp: 0 },
+         Params { est: "lasso", an: 2, ae: 3, l1n: 1, l1e: 0, normalize: true, tol_sgn: 1, tol_e: 14, max_iter: 1000, aexp: 0 }),
     ];
     for (d, pr) in fixed.iter() {
         run += 1;
@@ -439,6 +482,8 @@ fn replay_file(input: &str, path: &str) {
             x: serde_json::from_value(e["X"].clone()).unwrap(),
             xden: e["xden"].as_i64().unwrap_or(1),
             y: serde_json::from_value(e["y"].clone()).unwrap(),
+            xexp: e["xexp"].as_i64().unwrap_or(0) as i32,
+            yexp: e["yexp"].as_i64().unwrap_or(0) as i32,
         };
         let pr = Params {
             est: if e["est"] == "lasso" { "lasso" } else { "enet" },
@@ -450,6 +495,7 @@ fn replay_file(input: &str, path: &str) {
             tol_sgn: e["tolSgn"].as_i64().unwrap(),
             tol_e: e["tolE"].as_u64().unwrap() as u32,
             max_iter: e["maxIter"].as_u64().unwrap() as usize,
+            aexp: e["aexp"].as_i64().unwrap_or(0) as i32,
         };
         let o = run_fit(&d, &pr);
         out.emit(fit_event(e["run"].as_i64().unwrap(), &d, &pr, &o));
